@@ -121,6 +121,8 @@ def sem_part(tier, tag):
     rng = random.Random(vlib.seed())
     allpairs = [(a, b) for a in range(1, n + 1) for b in range(1, n + 1)]
     pairs = rng.sample(allpairs, min(len(allpairs), 1200 if tier == "quick" else 8000))
+    # every type against itself: with its own complement a decision diagram saturates (X | not X) or empties (X & not X)
+    pairs = [(a, a) for a in range(1, n + 1)] + [pq for pq in pairs if pq[0] != pq[1]]
     src = semlib.program(frag, env)
     nsh = 12
     d = os.path.join(vlib.WORK, tag)
